@@ -2205,3 +2205,209 @@ Proof.
   cbn [pm_loop]. rewrite Ha, Hr, Hk, Ho. cbn [negb bind]. unfold re_wf in Hwf. rewrite Hwf. cbn [negb].
   destruct (mask_value (c :: s') idxs (k_groups k) (k_mode k)) as [[out|]| |]; reflexivity.
 Qed.
+
+(* ------------------------------------------------------------------------------------------------ *)
+(* per-mask do_if (gate) and metric labels                                                            *)
+(* ------------------------------------------------------------------------------------------------ *)
+Lemma gate_ok b k : cmask_ok k -> cmask_ok (gate b k).
+Proof.
+  destruct b; cbn [gate]; [auto|]. intros [Hg _]. split; cbn [k_apply k_nsub k_groups k_rules]; [assumption|].
+  intros rs p [<-|[]] [].
+Qed.
+
+Lemma gate_all_ok : forall ks bits, Forall cmask_ok ks -> Forall cmask_ok (gate_all ks bits).
+Proof.
+  induction ks as [|k r IH]; intros bits H; [destruct bits; constructor|].
+  destruct bits as [|b br]; cbn [gate_all]; [assumption|].
+  inversion H; subst. constructor; [now apply gate_ok | now apply IH].
+Qed.
+
+Lemma gate_afield b k : k_afield (gate b k) = k_afield k.
+Proof. now destruct b. Qed.
+
+Lemma gate_all_nil : forall ks, gate_all ks [] = ks.
+Proof. now destruct ks. Qed.
+
+Lemma gate_all_afields : forall ks bits, map k_afield (gate_all ks bits) = map k_afield ks.
+Proof.
+  induction ks as [|k r IH]; intros bits; [now destruct bits|].
+  destruct bits as [|b br]; cbn [gate_all map]; [reflexivity|]. now rewrite gate_afield, IH.
+Qed.
+
+Lemma mark_names_gate ks bits cfg : mark_names (gate_all ks bits) cfg = mark_names ks cfg.
+Proof. unfold mark_names. now rewrite gate_all_afields. Qed.
+
+(* every answer "use" = the masks as compiled *)
+Lemma gate_all_used : forall ks bits, (forall b, In b bits -> b = true) -> gate_all ks bits = ks.
+Proof.
+  induction ks as [|k r IH]; intros bits H; [now destruct bits|].
+  destruct bits as [|b br]; cbn [gate_all]; [reflexivity|].
+  rewrite (H b (or_introl eq_refl)). cbn [gate]. f_equal. apply IH. intros b' Hb. apply H. now right.
+Qed.
+
+Lemma gate_all_nth : forall ks bits j k',
+  nth_error (gate_all ks bits) j = Some k' -> nth_error bits j = Some false -> k_rules k' = [(false, [])].
+Proof.
+  induction ks as [|k r IH]; intros bits j k' Hk Hb.
+  - destruct bits; destruct j; discriminate.
+  - destruct bits as [|b br]; [destruct j; discriminate|]. cbn [gate_all] in Hk.
+    destruct j as [|j]; cbn [nth_error] in *.
+    + inversion Hb; subst. inversion Hk; subst. reflexivity.
+    + eapply IH; eauto.
+Qed.
+
+(* a mask whose do_if said "no" for this event is not applied to any value of it: no rewrite by it, no
+   applied_field, no count *)
+Theorem gated_off_never_fires masks bits fl oracle fm s out upd fired j :
+  nth_error bits j = Some false ->
+  process_mask (gate_all masks bits) fl oracle fm s = Ok (out, upd, fired) -> ~ In j fired.
+Proof.
+  intros Hb H Hin. apply process_mask_fired in H as (Hf & _ & _).
+  destruct (Hf j Hin) as (k & Hk & _ & Hr & _).
+  rewrite (gate_all_nth _ _ _ _ Hk Hb) in Hr. cbn in Hr. discriminate.
+Qed.
+
+(* a mask whose do_if said "yes" (or that has none) is the compiled mask itself *)
+Lemma gate_all_nth_used : forall ks bits j k,
+  nth_error ks j = Some k -> nth_error bits j <> Some false -> nth_error (gate_all ks bits) j = Some k.
+Proof.
+  induction ks as [|k0 r IH]; intros bits j k Hk Hb; [destruct j; discriminate|].
+  destruct bits as [|b br]; cbn [gate_all]; [assumption|].
+  destruct j as [|j]; cbn [nth_error] in *.
+  - inversion Hk; subst. destruct b; [reflexivity | congruence].
+  - now apply IH.
+Qed.
+
+Definition res_map {A B} (f : A -> B) (r : res A) : res B :=
+  match r with Ok a => Ok (f a) | Err e => Err e | Panic p => Panic p end.
+
+(* without do_if answers the extended run produces the events of the plain run *)
+Lemma do_events_ext_plain inh ks fl oracle cfg pl xs : forall evs,
+  res_map fst (do_events_ext inh ks fl oracle cfg pl xs (map (fun e => (e, [])) evs)) =
+  res_map (fun x => fst (fst x)) (do_events inh ks fl oracle cfg evs).
+Proof.
+  induction evs as [|e r IH]; cbn [map do_events_ext do_events]; [reflexivity|].
+  rewrite gate_all_nil. destruct (do_event inh ks fl oracle cfg e) as [[e' fired]| |]; cbn [bind]; try reflexivity.
+  destruct (do_events_ext inh ks fl oracle cfg pl xs (map (fun e0 => (e0, [])) r)) as [[r1 m1]| |];
+    destruct (do_events inh ks fl oracle cfg r) as [[[r2 n2] c2]| |]; cbn [bind res_map fst] in *;
+    try discriminate; try reflexivity; try congruence.
+Qed.
+
+Theorem run_plugin_ext_plain inh cfg oracle evs :
+  res_map fst (run_plugin_ext inh cfg oracle [] (map (fun _ => mext0) (c_masks cfg)) (map (fun e => (e, [])) evs)) =
+  res_map (fun x => fst (fst x)) (run_plugin inh cfg oracle evs).
+Proof.
+  unfold run_plugin_ext, run_plugin.
+  destruct (compile_masks (c_masks cfg)) as [ks| |] eqn:Ek; cbn [bind]; try reflexivity.
+  destruct (gather_fields cfg) as [fl| |]; cbn [bind]; try reflexivity.
+  assert (Hl : forall (ks : list cmask) (ms : list mask), labels_refused ks (map (fun _ => mext0) ms) = false).
+  { induction ks0 as [|k r IH]; intros ms; [reflexivity|]. cbn [labels_refused].
+    destruct ms as [|m mr]; cbn [map]; cbn [x_clash x_labels mext0 bad_labels existsb has_dup_b orb andb negb].
+    - rewrite andb_false_r. apply (IH []).
+    - rewrite andb_false_r. apply IH. }
+  rewrite Hl. unfold bad_labels. cbn [existsb has_dup_b orb]. rewrite andb_false_r. cbn [orb].
+  apply do_events_ext_plain.
+Qed.
+
+Lemma do_events_ext_not_panic inh ks fl oracle cfg pl xs :
+  Forall cmask_ok ks -> (forall i b, is_panic (oracle i b) = false) ->
+  forall evs, is_panic (do_events_ext inh ks fl oracle cfg pl xs evs) = false.
+Proof.
+  intros Hk Ho. induction evs as [|[e bits] r IH]; cbn [do_events_ext]; [reflexivity|].
+  apply bind_not_panic; [apply do_event_not_panic; [now apply gate_all_ok | assumption]|]. intros [e' fired] _.
+  apply bind_not_panic; [exact IH|]. now intros [r' ms] _.
+Qed.
+
+Theorem run_plugin_ext_total inh cfg oracle pl xs evs :
+  (forall i b, is_panic (oracle i b) = false) -> is_panic (run_plugin_ext inh cfg oracle pl xs evs) = false.
+Proof.
+  intros Ho. unfold run_plugin_ext.
+  destruct (compile_masks (c_masks cfg)) as [ks|e|p] eqn:Ek; cbn [bind]; try reflexivity.
+  - destruct (gather_fields cfg) as [fl|e|p] eqn:Ef; cbn [bind]; try reflexivity.
+    + destruct ((c_metric cfg && bad_labels pl) || labels_refused ks xs); [reflexivity|].
+      apply do_events_ext_not_panic; [eapply compile_masks_ok; eauto | assumption].
+    + unfold gather_fields in Ef.
+      destruct (negb (is_nil (c_ign cfg)) && negb (is_nil (c_proc cfg))); [discriminate|].
+      destruct (existsb is_nil (c_ign cfg) || existsb is_nil (c_proc cfg)); discriminate.
+  - exfalso. eapply compile_masks_no_panic; eauto.
+Qed.
+
+Lemma do_events_ext_frame inh ks fl oracle cfg pl xs :
+  Forall cmask_ok ks -> ~ In [] (c_proc cfg) ->
+  forall evs evs' ms, do_events_ext inh ks fl oracle cfg pl xs evs = Ok (evs', ms) ->
+    Forall2 (event_frame (mark_names ks cfg)) (map fst evs) evs'.
+Proof.
+  intros Hk Hp. induction evs as [|[e bits] r IH]; intros evs' ms H; cbn [do_events_ext] in H.
+  - inversion H; subst. constructor.
+  - apply bind_ok_inv in H as ([e' fired] & He & H). apply bind_ok_inv in H as ([r' ms'] & Hr & H).
+    inversion H; subst; clear H. cbn [map fst]. constructor; [|eapply IH; eauto].
+    rewrite <- (mark_names_gate ks bits cfg).
+    eapply do_event_frame; eauto using gate_all_ok.
+Qed.
+
+(* the frame theorem holds with do_if and labels: labels are only read *)
+Theorem run_plugin_ext_frame inh cfg oracle pl xs evs evs' ms :
+  run_plugin_ext inh cfg oracle pl xs evs = Ok (evs', ms) ->
+  exists ks, compile_masks (c_masks cfg) = Ok ks /\ Forall2 (event_frame (mark_names ks cfg)) (map fst evs) evs'.
+Proof.
+  unfold run_plugin_ext. intros H. apply bind_ok_inv in H as (ks & Hk & H). apply bind_ok_inv in H as (fl & Hf & H).
+  destruct ((c_metric cfg && bad_labels pl) || labels_refused ks xs); [discriminate|].
+  exists ks. split; [assumption|]. eapply do_events_ext_frame; eauto.
+  - eapply compile_masks_ok; eauto.
+  - eapply gather_fields_paths; eauto.
+Qed.
+
+(* the counters of one event: the plugin's is touched iff some mask fired; mask i's iff it fired, has a metric
+   name and that name is not the plugin's - by the number of values it fired on; the label values are read
+   from the event as Do leaves it *)
+Lemma count_fired_pos fired i : 0 <? count_fired fired i = true <-> In i fired.
+Proof.
+  unfold count_fired. rewrite (count_occ_In Nat.eq_dec fired i). split; intros H; [apply Z.ltb_lt in H|apply Z.ltb_lt]; lia.
+Qed.
+
+Lemma mask_mobs_spec root fired : forall ks xs i0 n m,
+  nth_error (mask_mobs i0 ks xs fired root) n = Some m ->
+  exists k, nth_error ks n = Some k /\
+    (m = None <-> ~ (k_metric k = true /\ x_clash (nth n xs mext0) = false /\ In (i0 + n)%nat fired)) /\
+    (m <> None -> m = Some (count_fired fired (i0 + n), map (label_val root) (x_labels (nth n xs mext0)))).
+Proof.
+  induction ks as [|k r IH]; intros xs i0 n m H; cbn [mask_mobs] in H; [destruct n; discriminate|].
+  destruct n as [|n].
+  - destruct xs as [|x xr]; cbn [nth_error nth] in *; inversion H; subst; clear H; exists k; (split; [reflexivity|]);
+      rewrite Nat.add_0_r.
+    + cbn [x_clash mext0 negb]. rewrite andb_true_r.
+      destruct (k_metric k) eqn:Em; cbn [andb].
+      * destruct (0 <? count_fired fired i0) eqn:Ec.
+        -- apply count_fired_pos in Ec. split; [split; [discriminate | intros Hn; exfalso; apply Hn; auto] | reflexivity].
+        -- split; [split; [intros _ (_ & _ & Hin); apply count_fired_pos in Hin; congruence | reflexivity] | congruence].
+      * split; [split; [intros _ (Hc & _); discriminate | reflexivity] | congruence].
+    + destruct (k_metric k) eqn:Em; cbn [andb].
+      * destruct (x_clash x) eqn:Ex; cbn [negb andb].
+        -- split; [split; [intros _ (_ & Hc & _); discriminate | reflexivity] | congruence].
+        -- destruct (0 <? count_fired fired i0) eqn:Ec.
+           ++ apply count_fired_pos in Ec. split; [split; [discriminate | intros Hn; exfalso; apply Hn; auto] | reflexivity].
+           ++ split; [split; [intros _ (_ & _ & Hin); apply count_fired_pos in Hin; congruence | reflexivity] | congruence].
+      * split; [split; [intros _ (Hc & _); discriminate | reflexivity] | congruence].
+  - cbn [nth_error] in H. destruct xs as [|x xr].
+    + destruct (IH [] (S i0) n m H) as (k' & Hk' & Hs). exists k'. split; [assumption|].
+      replace (i0 + S n)%nat with (S i0 + n)%nat by lia.
+      replace (nth (S n) [] mext0) with (nth n (@nil mext) mext0) by (destruct n; reflexivity). exact Hs.
+    + destruct (IH xr (S i0) n m H) as (k' & Hk' & Hs). exists k'. split; [assumption|].
+      replace (i0 + S n)%nat with (S i0 + n)%nat by lia. exact Hs.
+Qed.
+
+Theorem event_metrics_spec ks cfg pl xs root fired :
+  exists pm rest, event_metrics ks cfg pl xs root fired = pm :: rest /\
+    (pm = None <-> fired = [] \/ c_metric cfg = false) /\
+    (pm <> None -> pm = Some (1, map (label_val root) pl)) /\
+    forall n m, nth_error rest n = Some m ->
+      exists k, nth_error ks n = Some k /\
+        (m = None <-> ~ (k_metric k = true /\ x_clash (nth n xs mext0) = false /\ In n fired)) /\
+        (m <> None -> m = Some (count_fired fired n, map (label_val root) (x_labels (nth n xs mext0)))).
+Proof.
+  unfold event_metrics. eexists. eexists. split; [reflexivity|]. split; [|split].
+  - destruct fired; cbn [is_nil negb andb]; [split; auto|].
+    destruct (c_metric cfg); split; auto; try discriminate. intros [?|?]; discriminate.
+  - destruct (negb (is_nil fired) && c_metric cfg); congruence.
+  - intros n m H. apply (mask_mobs_spec root fired ks xs 0 n m H).
+Qed.
